@@ -15,14 +15,14 @@ def run(ctx):
     from scipy.interpolate import interp1d
     core.coq_phase(ctx, GEN, PROPS)
     rng = dom.rng_for(ctx, 3)
-    nxs = (10, 20, 40) if ctx.quick else (10, 20, 40, 80, 160)
+    nxs = (10, 20, 40, 80) if ctx.quick else (10, 20, 40, 80, 160)
     ev = 0
     report = []
 
     def bad(what, inp, obs):
         ctx.violations.append(dict(what=what, key=what, input=inp, observed=obs))
 
-    tables = [("ideal-gas (consistent)", rescorr.synth_table("ideal", 80), 0.0), ("liquid (consistent)", rescorr.synth_table("liquid", 80), 0.0),
+    tables = [("ideal-gas (consistent)", rescorr.synth_table("ideal", 400), 0.0), ("liquid (consistent)", rescorr.synth_table("liquid", 400), 0.0),
               ("shipped gas", rescorr.shipped_gas(stride=4), None)]
     if not ctx.quick:
         tables.append(("haynesville", rescorr.shipped_haynesville(stride=6), None))
@@ -35,7 +35,7 @@ def run(ctx):
             m2 = np.concatenate([[0.0], np.cumsum(np.diff(p) * (f[1:] + f[:-1]) / 2)])
             dm = np.diff(tb["pseudopressure"]) / np.maximum(np.diff(m2), 1e-300)
             incons = float(np.median(np.abs(tb["compressibility"][2:-2] / dln[2:-2] - 1)) + np.median(np.abs(dm[2:-2] - 1)))
-        for sched_kind in ("constant", "stepdown", "arbitrary"):
+        for sched_kind in ("constant", "stepdown", "arbitrary", "chokeback"):
             ratios = (0.1, 0.99) if ctx.quick else (0.05, 0.5, 0.9, 0.99, 0.99875)
             for ratio in ratios:
                 pi = float(p[-2])
@@ -49,6 +49,8 @@ def run(ctx):
                         c["sched"] = list(np.where(t < 0.2, pf + 0.5 * (pi - pf), np.where(t < 0.5, pf + 0.25 * (pi - pf), pf)))
                     elif sched_kind == "arbitrary":
                         c["sched"] = list(pf + (pi - pf) * 0.4 * (1 + np.sin(7 * t)) / 2)
+                    elif sched_kind == "chokeback":  # drawdown, choke back (frac-face pressure RISES), drawdown again
+                        c["sched"] = list(np.where(t < 0.15, pf, np.where(t < 0.45, pf + 0.7 * (pi - pf), pf + 0.2 * (pi - pf))))
                     im = rescorr.run_impl(c)
                     ev += 1
                     inp = dict(table=tname, schedule=sched_kind, p_frac_over_p_initial=ratio, nx=nx, nt=nt)
@@ -61,7 +63,7 @@ def run(ctx):
                     scale = max(abs(rfd[-1]), abs(rf[-1]), 1e-12)
                     gaps.append(float(np.abs(rf - rfd).max() / scale))
                     if sched_kind in ("constant", "stepdown"):
-                        tol = 1e-9 * scale
+                        tol = 1e-8 * scale  # linear-solver level, not discretisation
                         if np.any(np.diff(rf) < -tol) or np.any(np.diff(rfd) < -tol):
                             bad("recovery decreases in time although frac-face pressure does not rise", inp,
                                 dict(min_step_flux=float(np.diff(rf).min()), min_step_inplace=float(np.diff(rfd).min())))
@@ -73,11 +75,11 @@ def run(ctx):
                 else:
                     report.append(dict(table=tname, schedule=sched_kind, ratio=ratio, gaps=gaps, table_inconsistency=incons))
                     inp = dict(table=tname, schedule=sched_kind, p_frac_over_p_initial=ratio, nx_ladder=list(nxs))
-                    allow = 3.0 / nxs[0] + incons
-                    if gaps[0] > allow:
-                        bad("flux-based and in-place recovery differ by more than first-order discretisation error (plus the table's own inconsistency)", inp, dict(gaps=gaps, allowed_at_coarsest=allow))
+                    allow = [5.0 / nx_ + incons for nx_ in nxs]
+                    if any(g > a for g, a in zip(gaps, allow)):
+                        bad("flux-based and in-place recovery differ by more than first-order discretisation error (plus the table's own inconsistency)", inp, dict(gaps=gaps, allowed=allow))
                     for a, b in zip(gaps, gaps[1:]):
-                        if b > 0.75 * a + incons + 1e-9:
+                        if b > 0.75 * a + incons + 5e-3:  # 5e-3: resolution of the (piecewise-linear) table itself
                             bad("the gap between flux-based and in-place recovery does not shrink under refinement", inp, dict(gaps=gaps, table_inconsistency=incons))
                             break
     # ---------------- ideal reservoir plateau: 1 - p_frac/p_initial
